@@ -63,20 +63,48 @@ func storeConfig() storage.IndexedStoreConfig {
 var errInjected = errors.New("injected write failure")
 
 type faultStore struct {
-	inner  storage.Interface
-	failAt int // 0: never
-	writes int // writes issued by the last Update
-	fired  bool
+	inner      storage.Interface
+	op         storage.TxOperator // the same store as a TxOperator (storage.Bolt is one)
+	failAt     int                // fail the k-th write; 0: never
+	failCommit bool               // fail tx.Commit
+	writes     int                // writes issued by the last Update
+	fired      bool
+}
+
+func (f *faultStore) set(failAt int) {
+	f.failAt, f.failCommit = failAt, false
+	if failAt < 0 {
+		f.failAt, f.failCommit = 0, true
+	}
 }
 
 func (f *faultStore) View(fn func(storage.ReadOnlyTx) error) error { return f.inner.View(fn) }
+
+// Update runs the repository's own storage.DoUpdate (begin, f, commit, deferred
+// rollback) over transactions whose writes and commit can be made to fail.
 func (f *faultStore) Update(fn func(storage.Tx) error) error {
 	f.writes, f.fired = 0, false
+	if f.op != nil {
+		return storage.DoUpdate(faultOperator{f}, fn)
+	}
 	return f.inner.Update(func(tx storage.Tx) error { return fn(&faultTx{Tx: tx, f: f}) })
 }
 func (f *faultStore) Store(b ...[]byte) storage.Interface {
-	return &faultStore{inner: f.inner.Store(b...), failAt: f.failAt}
+	in := f.inner.Store(b...)
+	op, _ := in.(storage.TxOperator)
+	return &faultStore{inner: in, op: op, failAt: f.failAt, failCommit: f.failCommit}
 }
+
+type faultOperator struct{ f *faultStore }
+
+func (o faultOperator) BeginTx() (storage.Tx, error) {
+	tx, err := o.f.op.BeginTx()
+	if err != nil {
+		return nil, err
+	}
+	return &faultTx{Tx: tx, f: o.f}, nil
+}
+func (o faultOperator) BeginReadOnlyTx() (storage.ReadOnlyTx, error) { return o.f.op.BeginReadOnlyTx() }
 
 type faultTx struct {
 	storage.Tx
@@ -103,6 +131,13 @@ func (t *faultTx) Delete(k string) error {
 	}
 	return t.Tx.Delete(k)
 }
+func (t *faultTx) Commit() error {
+	if t.f.failCommit {
+		t.f.fired = true
+		return errInjected // not committed: DoUpdate's deferred Rollback discards the transaction
+	}
+	return t.Tx.Commit()
+}
 func (t *faultTx) Bucket(name []byte) storage.Tx { return &faultTx{Tx: t.Tx.Bucket(name), f: t.f} }
 
 // ---- one open store ----
@@ -122,6 +157,11 @@ func openEnv(file string, wrap bool) (*env, error) {
 	var st storage.Interface = bs.Store(bucket)
 	if wrap {
 		e.fs = &faultStore{inner: st}
+		e.fs.op, _ = st.(storage.TxOperator)
+		if e.fs.op == nil {
+			bs.CloseBolt()
+			return nil, errors.New("storage.Bolt is no longer a TxOperator: adapt the fault wrapper")
+		}
 		st = e.fs
 	}
 	e.is, err = storage.NewIndexedStore(st, storeConfig())
